@@ -146,3 +146,19 @@ def check(repo: Repo, rep: Report) -> None:
         rng = [n for n in f.all_nodes() if isinstance(n, ast.Call) and isinstance(n.func, ast.Name) and n.func.id == "range"]
         rep.ob("Q3-delegations", f, f"range({param})", len(rng) == 1 and [u(a) for a in rng[0].args] == [param],
                f"{name} does not bound its number of subscriptions by range({param})")
+        # the unbounded form is chosen by `count is None`, never by the truthiness of the count (0 is a count)
+        tests = []
+        for g_ in f.walk():
+            if g_.is_func:
+                for nd in g_.direct_nodes():
+                    if isinstance(nd, (ast.If, ast.IfExp)) and any(isinstance(x, ast.Name) and x.id == param for x in ast.walk(nd.test)):
+                        tests.append((g_, nd))
+        for g_, nd in tests:
+            from ..rules import effective_test
+            from ..astutil import atoms
+            bad = [e for e, _p in atoms(effective_test(g_, nd.test), True) if isinstance(e, ast.Name) and e.id == param]
+            rep.ob("Q3-delegations", g_, f"{name}: `{short(nd.test, 40)}` decides bounded / unbounded by identity with None", not bad,
+                   f"{name} chooses the unbounded form when `{param}` is falsy: a count of 0 ({name.rstrip('_')}(0)) re-subscribes for ever "
+                   f"instead of never")
+        rep.ob("Q3-delegations", f, f"{name}: a test on {param} selects the unbounded form", bool(tests),
+               f"{name} no longer distinguishes `{param} is None` (unbounded) from a number")
